@@ -140,6 +140,10 @@ type run struct {
 	kexCount int
 	crossed  bool
 	fatal   bool
+	// inReply[side] is set while that side's global-request handler is inside
+	// Request.Reply (it writes a packet while it is the only consumer of the
+	// inbound request stream).
+	inReply [2]bool
 }
 
 type openMsg struct{ Index uint32 }
@@ -321,7 +325,9 @@ func (r *run) globalReqs(side int, reqs <-chan *ssh.Request) {
 	for rq := range reqs {
 		r.gotRequest(side, "global", -1, rq.Payload)
 		if rq.WantReply {
+			r.inReply[side] = true
 			rq.Reply(true, rq.Payload[:8])
+			r.inReply[side] = false
 		}
 	}
 }
@@ -475,6 +481,23 @@ func (r *run) onIdle() bool {
 		r.phase = 1
 		rt.Wake(&r.recK)
 		// liveness and completeness, judged at quiescence with every reader draining
+		incomplete := false
+		for _, ss := range r.st {
+			if !ss.wdone || ss.received != ss.expect {
+				incomplete = true
+			}
+		}
+		for side := 0; side < 2; side++ {
+			if incomplete && r.inReply[side] && r.inKex[side] {
+				// A distinct, recognisable deadlock (see known_findings.json):
+				// the handler of incoming global requests is blocked in Reply on
+				// the full pending queue of its own open key exchange, so the
+				// inbound pipeline (read loop -> mux -> request stream) backs up
+				// in front of the peer's key exchange messages.
+				r.c.Violate(Prop, "deadlock-reply-handler-during-kex", "side %d: the system is quiescent with all links released; the task that serves incoming global requests is blocked in Request.Reply because side %d's own key exchange is open and its pending queue holds %d packets, while the peer's key exchange packets are stuck behind undelivered application packets (read loop, mux loop and request stream are full). Blocked tasks: %v", side, side, ssh.VerifPendingPackets(r.conns[side]), r.c.Sim.Unfinished())
+				return false
+			}
+		}
 		for id, ss := range r.st {
 			st := r.s.Streams[id]
 			if !ss.wdone {
